@@ -6,7 +6,13 @@
      and every pair of regression vectors over -2..2 (length <= 3 quick, 4 thorough, at most one missing truth) and checks the
      property's theorems as invariants: AUC = Mann-Whitney, monotone curve, 1 - AUC under negation, invariance under increasing
      maps and object reordering, recall non-decreasing ending at 1, PR area in [0,1], R2 <= 1, perfect prediction, MAE <= RMSE,
-     missing truths ignored, layout bijective.
+     missing truths ignored, layout bijective; round 3: class exchange mirrors the curve, AUC = 1 iff the scores separate the
+     classes, a missing-coded object is transparent wherever it is ranked, precision steps, index sums = set sums, and the laws of
+     the tolerance functions (ASSUME TolLaws).  StatsOut.tla / StatsHist.tla: what a routine does with an output that is not empty
+     on entry ("assign" for PLS/MLRRegressionStatistics, "append" for ROC / PrecisionRecall / PLSDiscriminantAnalysisStatistics, read
+     off the unchanged library); all call histories (pre-size, call, call again with another shape, re-initialise) are model-checked:
+     under "assign" the table is always the latest call's, under "append" only its tail is - TLC must produce the counterexample -
+     and with fresh outputs only the two are indistinguishable (FreshBlind: why a fresh-only generator missed the DVectorAppend change).
 (GEN) the same run prints every case with the exact expected results.
 (C)  replay: harness/c15_replay.c runs ROC, PrecisionRecall, curve_area, R2/MSE/RMSE/MAE/BIAS and the three table builders of
      the real library on every printed case (four increasing score maps / three dyadic scales), comparing point by point with
@@ -14,9 +20,46 @@
      2^20 .. 2^30 units (|mean|/spread up to 1e9, exactly representable) against the SAME exact value (1e-8).
      validate: the same driver runs the library on long random inputs (n <= 200, arbitrary tie-free score distributions,
      increasing maps, permutations, negation, up to 20 % missing truths) and logs rank order + results as integers over the
-     known denominators; TLC recomputes every curve / area / sum exactly and relates the events (TraceStats.tla).
+     known denominators; TLC recomputes every curve / area / sum exactly and relates the events (TraceStats.tla; the all-pairs
+     Mann-Whitney count up to 60 objects in the quick tier, for every length (Trace_Stats_deep*.cfg) in the thorough tier and for
+     every class-directed block).
+     validate, class-directed (round 3, `cls` mode of the driver): stratified blocks for the input / history classes of
+     INPUT-CLASSES.md, each tagged (coverage.classes):
+       K1 lengths 2, 3, 199, 200; tables ny=1 / ny>1 x nlv=1 / nlv>1 and wide (n < ny*nlv)
+       K2 lengths 4, 5, 31..33, 63..65, 127..129
+       K3 regression offsets 1e3 .. 2^30 at dyadic scales (R2/BIAS now exact numerator over D + 1e-12 residual, tolerance
+          Stats!FineTol(offset, length, D)); scores 1e15 + k and 1e8 + k/1024
+       K4 regression scales 2^-30 .. 2^30; scores all < 1e-297, all > 1e300, spanning 1e-300 .. 1e300 with both signs, denormal
+       K5 decimal unit systems 1e-9 .. 1e9 (not exactly representable); scores 0.1*k and k/3
+       K7 table builders into outputs that are fresh / pre-sized New*(n) with data / of another size / filled by a previous call
+          of the same or another shape, every NULL-mask of the optional outputs; ROC inputs reused in place (same shape other
+          data, other shape, first shape again); ROC / PrecisionRecall / PLS-DA into used outputs (implementation layer only)
+       K8 scores 1 ulp apart (at 1, at -1e5, at 1e300), all negative; all-but-one positive / negative; alternating; perfect prediction
+       K9 missing-coded truths first / last / first and last / 20 % / a different row in every response, for every latent variable
+     Excluded with reason: K6 (no routine of C15 reaches an MT kernel or spawns workers), K10 (truths are binary by the quantifier),
+     tied scores and non-finite scores (outside "without ties" / the library recodes non-finite values as missing), constant truths
+     (R2/BIAS undefined), missing-coded truths in PLS-DA tables (classification vectors are "binary" in the quantifier).
+
+Clause audit (statement clause -> model theorem | trace action / event that decides it on the real library):
+  R2 / MSE / MAE / BIAS equal their formulas      Stats!R2q MSEq MAEq BIASq | replay Reg (Res) ; TR2 TMse TMae TBias (R2 Mse Mae Bias)
+  RMSE^2 = MSE                                    (definition)               | replay Reg ; TRmse (Rmse)
+  R2 = 1 and errors = 0 for perfect prediction    ThRegPerfect               | TR2 (q = 10000, num = D) TMse TMae (ssen = saen = 0), class K8:perfect-prediction
+  R2 <= 1                                         ThRegBounds                | TR2 (q <= 10000, over <= tol)
+  MAE <= RMSE                                     ThRegBounds                | replay Reg ; TMae (saen^2 <= m SSE on the recorded integers)
+  missing-coded truths ignored                    ThMissingIgnored, ThMissingTransparent | Present()/Cnt() in every action; classes K9:*
+  PLS/MLR tables = functions per response and LV  ThLayout ThTablesDistinguish StatsHist!TableIsLatest | replay PlsReg Mlr ; TTabIn TTabOut (TabIn TabOut)
+  (PLS-DA tables, anchors)                        ThLayout                   | replay PlsDa ; TDaIn TDaOut (DaIn DaOut)
+  ROC rises monotonically from (0,0) to (1,1)     ThRocMonotone              | replay Roc ; TRoc MonotoneCurve (Roc)
+  area = Mann-Whitney probability                 ThMannWhitney              | TRoc auc2 = Area2(pts) = 2 Wins (n <= 60), TArea (Area)
+  unchanged by strictly increasing maps           ThOrderOfScores            | TRoc kind "mono" (same auc2, same points as "base")
+  unchanged by reordering the objects             ThReorder                  | TRoc kind "perm"
+  1 - AUC when scores are negated                 ThComplement ThLabelSwap   | TRoc kind "neg"
+  PR recall non-decreasing ending at 1            ThPrecisionRecall ThPrPoints | replay Roc ; TPr RecallCurve (Pr)
+  PR area in [0,1]                                ThPrecisionRecall          | replay Roc ; TPr ap9 (Pr)
+Outside the statement, specified and reported as EXTRA-FINDING only: curve_area on an arbitrary polyline (TPoly), the curve
+slices PLSDiscriminantAnalysisStatistics appends to a used tensor (TDaSlices).
 """
-import os, shutil
+import os, shutil, copy
 from concurrent.futures import ThreadPoolExecutor
 from vf import build, tlc, trace
 from vf import run as hrun
@@ -26,14 +69,21 @@ LEVEL = "model_checking"
 READY = True
 TECHNIQUE = ("TLC as exact rational oracle: Stats.tla defines ROC/AUC/PR, R2/MSE/MAE/BIAS and the statistic tables, TLC enumerates all truth vectors x "
              "score orders and all small regression pairs, checks the property's theorems as invariants and prints cases + exact results; a C driver replays "
-             "them through the real library, and records long random runs whose curves/areas/sums TLC recomputes exactly (trace validation)")
+             "them through the real library, and records long random and class-directed runs (input classes K1-K9: sizes, offsets, unit systems, "
+             "1-ulp / extreme scores, missing patterns, output histories of the table builders) whose curves/areas/sums/tables TLC recomputes exactly "
+             "(trace validation); StatsHist.tla model-checks the output-reuse contracts (assign vs append)")
 LEVEL_TEXT = ("All (truth vector, score order) pairs up to 5 (quick) / 6 (thorough) objects incl. one missing-coded truth, and all regression vector pairs over "
               "-2..2 up to length 3 / 4 with at most one missing truth, are enumerated by TLC; the theorems are invariants of that enumeration and every case's "
-              "exact result is compared with the real functions. Beyond the small scope, recorded executions on random inputs up to 200 objects are "
-              "validated event by event by TLC against the same operators.")
+              "exact result is compared with the real functions. All call histories into one output (3 calls, lengths 1..3) are enumerated for both reuse "
+              "contracts. Beyond the small scope, recorded executions on random and class-stratified inputs up to 200 objects (scalars, ROC/PR, and the "
+              "three table builders with used / pre-sized / NULL outputs) are validated event by event by TLC against the same operators.")
 LEVEL_NOTE = ("Trusts TLC's integer/rational arithmetic, the text conversion of TLC's output, the harness's 1e-12 comparison and its rank-order projection "
-              "(qsort of its own scores) in the validate direction; R2/BIAS are logged at 1e-4 resolution in the validate direction (exact in replay). "
-              "Scores are tie-free by construction (the property's quantifier); ASan/UBSan is the memory monitor.")
+              "(qsort of its own scores) in the validate direction; R2/BIAS are logged as round(result * D) over D = m*Syy - Sy^2 (D recomputed by TLC) plus the "
+              "residual in 1e-12 units, judged with the spec's tolerance function of offset, length and D. Scores are tie-free by construction (the property's "
+              "quantifier); ASan/UBSan is the memory monitor. Classes not generated because the quantifier excludes them: tied or non-finite scores, constant "
+              "truths, non-binary class labels (K10), missing-coded truths in PLS-DA tables, more than 20 % missing truths; K6 does not apply (no routine of "
+              "C15 reaches an MT kernel). Used outputs of the 'append' routines (ROC, PrecisionRecall, PLSDiscriminantAnalysisStatistics) are recorded in the "
+              "implementation-shaped layer only (SPEC-DRIFT, never a verdict).")
 
 W = int(os.environ.get("VERIF_WORKERS", "16"))
 
@@ -50,7 +100,59 @@ def _san_brief(err):
             out.append(line.strip())
     return "\n".join(out)[:1500]
 FAMS = ["Roc", "Reg", "PlsReg", "Mlr", "PlsDa"]
-EVENT_FN = {"Roc": "ROC", "Area": "curve_area", "Pr": "PrecisionRecall", "Mse": "MSE", "Mae": "MAE", "Rmse": "RMSE", "R2": "R2", "Bias": "BIAS"}
+EVENT_FN = {"Roc": "ROC", "Area": "curve_area", "Pr": "PrecisionRecall", "Mse": "MSE", "Mae": "MAE", "Rmse": "RMSE", "R2": "R2", "Bias": "BIAS",
+            "DaOut": "PLSDiscriminantAnalysisStatistics"}
+TAB_FN = {"PlsReg": "PLSRegressionStatistics", "Mlr": "MLRRegressionStatistics"}
+INPUT_EVENTS = ("RegIn", "TabIn", "DaIn", "Reset")          # state only that the generated input is well formed and inside the quantifier
+EXTRA_EVENTS = {"Poly": ("STATS:curve_area:polyline", "curve_area() on an arbitrary polyline is not the trapezoid sum of its points"),
+                "DaSlices": ("STATS:PLSDiscriminantAnalysisStatistics:used-tensor",
+                             "PLSDiscriminantAnalysisStatistics called with a roc / precision_recall tensor that already holds slices appends nlv ZERO slices and "
+                             "writes the new curves over the FIRST nlv slices (roc->m[lv] instead of the appended slice): the previous call's curves are lost and "
+                             "the appended slices are empty, while the AUC / AP tables are appended correctly")}
+
+
+def _size_tag(n):
+    """the size class of a vector length, named as size_cls() of the driver names them"""
+    if n <= 3 or n >= 199:
+        return "K1:n=%d" % n
+    if n % 32 == 0:
+        return "K2:n=%d(k*32)" % n
+    if n % 32 in (1, 31):
+        return "K2:n=%d(k*32+-1)" % n
+    return "K2:n=k*4" if n % 4 == 0 else "K2:n=k*4+-r"
+
+
+def _derived_tags(block):
+    """class tags of a block of the RANDOM generator (its Reset carries none): read off the recorded inputs"""
+    tags = []
+    for e in block:
+        if e["e"] == "Roc" and e["kind"] == "base":
+            y = e["y"]
+            tags.append(_size_tag(e["n"]))
+            tags.append("K8:all-but-one-negative" if e["p"] == 1 else ("K8:all-but-one-positive" if e["nn"] == 1 else "K8:truths-random"))
+            tags.append("K8:scores-random-distribution(%s)" % e.get("sc", "rand"))
+            if 2 in y:
+                tags.append("K9:missing-first-and-last" if y[0] == 2 and y[-1] == 2 else ("K9:missing-first" if y[0] == 2 else ("K9:missing-last" if y[-1] == 2 else "K9:missing-inside")))
+                if 5 * y.count(2) >= len(y) - 4:
+                    tags.append("K9:missing-20pct")
+            else:
+                tags.append("K9:no-missing")
+        elif e["e"] == "RegIn":
+            off, yt = abs(e.get("off", 0)), e["yt"]
+            tags.append(_size_tag(e["n"]))
+            if off:
+                tags.append("K3:offset-%s" % ("1e9" if off >= 10 ** 9 else ("1e8" if off >= 10 ** 8 else ("1e6..1e8" if off >= 10 ** 6 else "<1e6"))))
+            if e.get("dx", 0):
+                tags.append("K5:scale-1e%d" % e["dx"])
+            elif not off or e["exp"]:
+                tags.append("K4:scale-2^%d" % e["exp"])
+            if 99 in yt:
+                tags.append("K9:missing-first-and-last" if yt[0] == 99 and yt[-1] == 99 else ("K9:missing-first" if yt[0] == 99 else ("K9:missing-last" if yt[-1] == 99 else "K9:missing-inside")))
+            else:
+                tags.append("K9:no-missing")
+            if all(a == 99 or a == b for a, b in zip(yt, e["yp"])):
+                tags.append("K8:perfect-prediction")
+    return tags
 
 
 def _flat(x, out):
@@ -158,19 +260,59 @@ def _replay_cases(ctx, emits, rd, fams):
             raise InfraError("c15 harness ran %s of %d cases of family %s" % (done[0]["cases"], count[fam], fam))
 
 
-def _validate_events(ctx, events, label, replay_case):
+class _Plan:
+    """TLC work of the validate directions, collected first and then run through ONE pool: trace validations (tasks), binding self-tests (bind), then the
+    sequential evidence accounting (post).  A failing binding self-test is an infrastructure failure unless violations were reported (a broken library leaves
+    no healthy block to corrupt)."""
+    def __init__(self):
+        self.tasks, self.bind, self.post = [], [], []
+
+    def run(self, ctx):
+        def go(f):
+            try:
+                f()
+            except Exception as e:          # noqa: BLE001 - re-raised below in the main thread
+                return e
+        with ThreadPoolExecutor(max(1, W)) as ex:
+            r1 = ex.map(go, self.tasks)
+            r2 = ex.map(go, self.bind)
+            r1, r2 = list(r1), list(r2)
+        for e in r1:
+            if e is not None:
+                raise e
+        if ctx.violations:
+            if any(e is not None for e in r2):
+                ctx.note("violations were reported: failing binding self-tests (they need healthy recorded blocks) are not counted")
+        else:
+            for e in r2:
+                if e is not None:
+                    raise e
+        for f in self.post:
+            f()
+
+
+def _validate_events(ctx, events, label, replay_case, deep=False):
     def on_reject(ev, idx, block):
-        fn = EVENT_FN.get(ev.get("e"), "trace")
-        head = next((b for b in block if b.get("e") in ("Roc", "RegIn")), {})
-        inp = next((b for b in reversed(block[:block.index(ev) + 1]) if b.get("e") in ("Roc", "RegIn")), head)
-        brief = {k: inp.get(k) for k in ("e", "kind", "n", "exp", "off", "y", "ord", "yt", "yp") if k in inp}
-        ctx.violation("STATS:%s%s" % (fn, ":offset" if inp.get("off") else ""),
-                      "%s: what the library returned is not what the definition gives for the recorded input (event %s; input %s)"
-                      % (fn, str({k: v for k, v in ev.items() if k not in ("y", "ord", "pts", "pr")})[:300], str(brief)[:700]), replay_case(block))
-    return trace.check_trace(ctx, "TraceStats", "Trace_Stats.cfg", None, events, on_reject, drop="block", label=label, timeout=2400, max_rounds=8)
+        kind = ev.get("e")
+        if kind in INPUT_EVENTS:
+            raise InfraError("the driver generated an input the specification does not admit (event %s)" % str(ev)[:400])
+        if kind in EXTRA_EVENTS:
+            ctx.extra(*EXTRA_EVENTS[kind])
+            return
+        tabin = next((b for b in block if b.get("e") == "TabIn"), {})
+        fn = TAB_FN.get(tabin.get("fam"), "trace") if kind == "TabOut" else EVENT_FN.get(kind, "trace")
+        head = next((b for b in block if b.get("e") in ("Roc", "RegIn", "TabIn", "DaIn")), {})
+        inp = next((b for b in reversed(block[:block.index(ev) + 1]) if b.get("e") in ("Roc", "RegIn", "TabIn", "DaIn")), head)
+        brief = {k: inp.get(k) for k in ("e", "kind", "sc", "fam", "n", "ny", "nlv", "exp", "dx", "off", "hist", "mask", "pre", "y", "ord", "yt", "yp", "mt", "mp") if k in inp}
+        sig = "STATS:%s%s%s" % (fn, ":offset" if inp.get("off") else "", ":reuse" if inp.get("hist", "fresh") != "fresh" else "")
+        ctx.violation(sig, "%s: what the library returned is not what the definition gives for the recorded input (event %s; input %s)"
+                      % (fn, str({k: v for k, v in ev.items() if k not in ("y", "ord", "pts", "pr", "rocs", "prs")})[:400], str(brief)[:900]), replay_case(block))
+    # deep: the all-pairs Mann-Whitney count is evaluated for every recorded length (to 200) instead of up to 60 objects
+    cfgs = ("Trace_Stats_deep.cfg", "Trace_Stats_deep_prop.cfg") if deep else ("Trace_Stats.cfg", "Trace_Stats_prop.cfg")
+    return trace.check_trace(ctx, "TraceStats", cfgs[0], cfgs[1], events, on_reject, drop="block", label=label, timeout=2400, max_rounds=8)
 
 
-def _trace_direction(ctx, rd, nproc, blocks, maxn):
+def _trace_direction(ctx, rd, nproc, blocks, maxn, plan):
     exe = _exe()
     jobs = [["trace", os.path.join(rd, "t%d.ndjson" % i), ctx.seed + 7919 * i, blocks, maxn] for i in range(nproc)]
     res = hrun.run_many(exe, jobs, timeout=2400, workers=W)
@@ -188,21 +330,23 @@ def _trace_direction(ctx, rd, nproc, blocks, maxn):
             raise InfraError("c15 trace harness produced no events")
         chunks.append((j, ev))
 
-    def one(item):
-        (j, ev), i = item
-        return _validate_events(ctx, ev, "trace_stats_%d" % i, lambda block, j=j: dict(kind="trace", args=j[2:], block=[b for b in block][:12]))
-    with ThreadPoolExecutor(min(len(chunks), max(1, W // 2))) as ex:
-        list(ex.map(one, [(c, i) for i, c in enumerate(chunks)]))
-    nroc = 0
-    for _, ev in chunks:
-        for e in ev:
-            if e["e"] == "Roc":
-                nroc += 1
-                ctx.case(("T", e["kind"], tuple(e["y"]), tuple(e["ord"])), True)
-            elif e["e"] == "RegIn":
-                ctx.case(("TR", tuple(e["yt"]), tuple(e["yp"]), e["exp"], e.get("off", 0)), True)
-        ctx.traces(sum(1 for e in ev if e["e"] == "Reset"))
-    if nroc == 0:
+    for i, (j, ev) in enumerate(chunks):
+        plan.tasks.append(lambda j=j, ev=ev, i=i: _validate_events(ctx, ev, "trace_stats_%d" % i,
+                                                                   lambda block, j=j: dict(kind="trace", args=j[2:], block=[b for b in block][:12]), deep=not ctx.quick))
+
+    def account():
+        for _, ev in chunks:
+            for blk_ in tlc.split_blocks(ev):
+                for t in _derived_tags(blk_):
+                    ctx.cls(t)
+            for e in ev:
+                if e["e"] == "Roc":
+                    ctx.case(("T", e["kind"], tuple(e["y"]), tuple(e["ord"])), True)
+                elif e["e"] == "RegIn":
+                    ctx.case(("TR", tuple(e["yt"]), tuple(e["yp"]), e["exp"], e.get("off", 0), e.get("dx", 0)), True)
+            ctx.traces(sum(1 for e in ev if e["e"] == "Reset"))
+    plan.post.append(account)
+    if not any(e["e"] == "Roc" for _, ev in chunks for e in ev):
         raise InfraError("no Roc events recorded")
     # binding self-test: a wrong AUC / a wrong curve point / a wrong sum must be rejected
     first = chunks[0][1]
@@ -229,14 +373,205 @@ def _trace_direction(ctx, rd, nproc, blocks, maxn):
                 e["ssen"] += 1
                 return True
         return False
-    trace.binding_selftest(ctx, "TraceStats", "Trace_Stats.cfg", sample, corrupt_auc, "binding_auc")
-    trace.binding_selftest(ctx, "TraceStats", "Trace_Stats.cfg", sample, corrupt_pr, "binding_pr")
+
+    def corrupt_r2num(evs):
+        for e in evs:
+            if e["e"] == "R2":
+                e["num"] += 1          # the 1e-4 value q still fits: only the exact numerator is wrong
+                return True
+        return False
+    def bind(evs, corrupt, label, cfg="Trace_Stats.cfg"):
+        plan.bind.append(lambda: trace.binding_selftest(ctx, "TraceStats", cfg, evs, corrupt, label))
+    bind(sample, corrupt_auc, "binding_auc")
+    bind(sample, corrupt_pr, "binding_pr")
     regs = [e for b in blk for e in b if any(x["e"] == "RegIn" for x in b)][:40]
     if regs:
-        trace.binding_selftest(ctx, "TraceStats", "Trace_Stats.cfg", regs, corrupt_sse, "binding_sse")
+        bind(regs, corrupt_sse, "binding_sse")
+        bind(regs, corrupt_r2num, "binding_r2_numerator")
     for e in first:
         if e["e"] == "Roc" and e["n"] <= 12 and e["kind"] == "base":
             ctx.sample(e, 6)
+            break
+
+
+# classes the class-directed run must really have emitted (vacuity: a generator change that silently drops a class is an infrastructure failure)
+REQUIRED_CLASSES = (
+    ["K1:n=2", "K1:n=3", "K1:n=199", "K1:n=200", "K2:n=k*4", "K2:n=k*4+-r", "K2:n=32(k*32)", "K2:n=31(k*32+-1)", "K2:n=33(k*32+-1)", "K2:n=64(k*32)", "K2:n=63(k*32+-1)",
+     "K2:n=65(k*32+-1)", "K2:n=128(k*32)", "K2:n=127(k*32+-1)", "K2:n=129(k*32+-1)",
+     "K1:table-wide(n<ny*nlv)", "K1:table-ny=1,nlv=1", "K1:table-ny=1,nlv>1", "K1:table-ny>1,nlv=1", "K1:table-ny>1,nlv>1",
+     "K3:offset-<1e6", "K3:offset-1e6..1e8", "K3:offset-1e8", "K3:offset-1e9", "K3:scores-offset-1e15", "K3:scores-offset-1e8-spacing-2^-10",
+     "K4:scale-2^-30", "K4:scale-2^-20", "K4:scale-2^-7", "K4:scale-2^0", "K4:scale-2^9", "K4:scale-2^20", "K4:scale-2^30",
+     "K4:scores-span-1e-300..1e300", "K4:scores-all-below-1e-297", "K4:scores-all-above-1e300", "K4:scores-denormal",
+     "K5:scale-1e-9", "K5:scale-1e-6", "K5:scale-1e-3", "K5:scale-1e-1", "K5:scale-1e1", "K5:scale-1e3", "K5:scale-1e6", "K5:scale-1e9", "K5:scores-0.1*k", "K5:scores-k/3",
+     "K7:outputs-fresh", "K7:outputs-presized-New(n)", "K7:outputs-other-size-with-data", "K7:outputs-from-previous-call-same-shape",
+     "K7:outputs-from-previous-call-other-shape", "K7:inputs-reused-in-place", "K7:curve-output-presized-New(n)", "K7:curve-output-from-previous-call"]
+    + ["K7:outputs-mask-%d" % m for m in range(1, 7)]
+    + ["K8:scores-normal", "K8:scores-1ulp-apart", "K8:scores-1ulp-apart-negative", "K8:scores-1ulp-apart-at-1e300", "K8:scores-all-negative",
+       "K8:all-but-one-negative", "K8:all-but-one-positive", "K8:truths-alternating", "K8:perfect-prediction",
+       "K9:missing-first", "K9:missing-last", "K9:missing-first-and-last", "K9:missing-20pct", "K9:missing-other-row-per-response",
+       "fam:PLSRegressionStatistics", "fam:MLRRegressionStatistics", "fam:PLSDiscriminantAnalysisStatistics", "fam:curve_area"])
+REQUIRED_EVENTS = ("Roc", "Area", "Pr", "RegIn", "Mse", "Mae", "Rmse", "R2", "Bias", "Again", "TabIn", "TabOut", "DaIn", "DaOut", "DaSlices", "Poly")
+
+
+def _hist_models(ctx):
+    """StatsHist.tla: the reuse contracts over all call histories; the 'append' contract MUST violate TableIsLatest (the model distinguishes them)"""
+    for cfg, want in (("MC_StatsHist_assign.cfg", None), ("MC_StatsHist_append.cfg", None), ("MC_StatsHist_append_neg.cfg", "TableIsLatest")):
+        r = tlc.run("StatsHist", cfg, workers=1, timeout=600, coverage=(want is None), xmx="1g")
+        ctx.add_tlc(r, "mc_" + cfg[3:-4].lower())
+        if want is None:
+            if not r.ok:
+                raise InfraError("StatsHist.tla (%s): %s fails in the model itself:\n%s" % (cfg, r.violation, r.trace_text[:1200]))
+            zero = r.zero_actions()
+            if zero:
+                raise InfraError("StatsHist.tla (%s): actions never taken: %s" % (cfg, zero))
+        elif r.ok or r.violation != want:
+            raise InfraError("StatsHist.tla: the 'append' contract must violate %s (it tells the contracts apart); TLC says ok=%s violation=%s" % (want, r.ok, r.violation))
+    ctx.note("StatsHist: 'assign' keeps TableIsLatest over all histories, 'append' only TailIsLatest (counterexample produced), FreshBlind holds for both")
+
+
+def _cls_direction(ctx, rd, level, nparts, plan, only_part=None):
+    """class-directed validate direction: stratified blocks for K1..K9 (driver mode `cls`), every block validated by TLC"""
+    exe = _exe()
+    parts = range(nparts) if only_part is None else [only_part]
+    jobs = [["cls", os.path.join(rd, "k%d.ndjson" % i), ctx.seed, level, i, nparts] for i in parts]
+    res = hrun.run_many(exe, jobs, timeout=2400, workers=W)
+    chunks = []
+    for j, h in zip(jobs, res):
+        ev = hrun.read_ndjson(j[1])
+        if h.timed_out:
+            raise InfraError("c15 class-directed harness timed out")
+        if h.rc == 2:
+            raise InfraError("c15 class-directed harness: %s" % h.err[-600:])
+        if h.rc != 0:
+            kind = ":".join((h.san or "crash:rc%d" % h.rc).split(":")[:2])
+            fn = (h.san or "").split(":")[2] if h.san and h.san.count(":") >= 2 else "trace"
+            last = next((e for e in reversed(ev) if e["e"] == "Reset"), {})
+            ctx.violation("STATS:%s:%s" % (fn, kind), "class-directed run %s, after block %s: %s\n%s" % (j[2:], last.get("cls"), h.san or "rc=%d" % h.rc, _san_brief(h.err)),
+                          dict(kind="cls", args=j[2:]))
+        if not ev:
+            raise InfraError("c15 class-directed harness produced no events")
+        chunks.append((j, ev))
+    seen = {}
+    for _, ev in chunks:
+        for e in ev:
+            seen[e["e"]] = seen.get(e["e"], 0) + 1
+    if only_part is None and not ctx.violations:
+        missing = [k for k in REQUIRED_EVENTS if not seen.get(k)]
+        if missing:
+            raise InfraError("vacuous class-directed run: no event of kind %s" % missing)
+
+    extra_poly, extra_da = [], []
+    for i, (j, ev) in enumerate(chunks):
+        # behaviour outside the statement (EXTRA) is validated apart so that its rejection never hides statement-level events of the same trace
+        for b in tlc.split_blocks(ev):
+            if any(x["e"] == "Poly" for x in b):
+                extra_poly.append(b)
+            elif any(x["e"] == "DaSlices" for x in b):
+                extra_da.append(b)
+        main = [e for e in ev if e["e"] not in EXTRA_EVENTS]
+        rc = lambda block, j=j: dict(kind="cls", args=j[2:], block=[{k: v for k, v in b.items() if k not in ("rocs", "prs")} for b in block][:6])
+        plan.tasks.append(lambda main=main, i=i, rc=rc: _validate_events(ctx, main, "trace_cls_%d" % i, rc, deep=True))
+    # every polyline block, and a few of the used-tensor blocks (on the unchanged tree each of them is rejected: one TLC round per block)
+    extra_all = [e for b in extra_poly + extra_da[:3] for e in b]
+    if extra_all:
+        plan.tasks.append(lambda: _validate_events(ctx, extra_all, "trace_cls_extra", lambda block: dict(kind="cls", args=chunks[0][0][2:])))
+    got = {}
+    for _, ev in chunks:
+        for blk in tlc.split_blocks(ev):
+            for t in blk[0].get("cls", []):
+                got[t] = got.get(t, 0) + 1
+
+    def account():
+        for t, k in got.items():
+            ctx.cls(t, k)
+        for _, ev in chunks:
+            for e in ev:
+                if e["e"] == "Roc":
+                    ctx.case(("K", e["kind"], e.get("sc"), tuple(e["y"]), tuple(e["ord"])), True)
+                elif e["e"] == "RegIn":
+                    ctx.case(("KR", tuple(e["yt"]), tuple(e["yp"]), e["exp"], e["off"], e["dx"]), True)
+                elif e["e"] == "TabIn":
+                    ctx.case(("KT", e["fam"], e["hist"], e["mask"], e["exp"], e["off"], str(e["mt"]), str(e["mp"])), True)
+                elif e["e"] == "DaIn":
+                    ctx.case(("KD", e["hist"], str(e["mt"]), str(e["ords"])), True)
+                elif e["e"] == "Poly":
+                    ctx.case(("KP", e["exp"], str(e["pts"])), True)
+            ctx.traces(sum(1 for e in ev if e["e"] == "Reset"))
+    plan.post.append(account)
+    if only_part is not None:
+        return
+    lacking = [t for t in REQUIRED_CLASSES if not got.get(t)]
+    if lacking and not ctx.violations:       # (a crashed driver run is already reported as a violation: its remaining blocks are missing for that reason)
+        raise InfraError("class-directed run did not emit the classes %s" % lacking)
+    # binding self-tests, one per new event kind: a corrupted recorded field must be rejected
+    allev = [e for _, ev in chunks for e in ev]
+    blocks = tlc.split_blocks(allev)
+
+    def pick(pred):
+        b = next((b for b in blocks if pred(b)), None)
+        if b is None:
+            raise InfraError("binding self-test: no block of the wanted kind was recorded")
+        return b
+
+    def bind(cfg, evs, corrupt, label):
+        plan.bind.append(lambda: trace.binding_selftest(ctx, "TraceStats", cfg, evs, corrupt, label))
+
+    def mut(kind, fn):
+        def go(evs):
+            for e in evs:
+                if e["e"] == kind and fn(e):
+                    return True
+            return False
+        return go
+
+    def bump(path):
+        def f(e):
+            o = e
+            for k in path[:-1]:
+                o = o[k]
+            o[path[-1]] += 1
+            return True
+        return f
+    tabs = pick(lambda b: any(e["e"] == "TabIn" and e["fam"] == "PlsReg" and e["ny"] > 1 and e["nlv"] > 1 and e["mask"] == 7 for e in b))
+    bind("Trace_Stats_prop.cfg", tabs, mut("TabOut", bump(["ent", 1, 4])), "binding_table_r2_entry")
+    bind("Trace_Stats_prop.cfg", tabs, mut("TabOut", bump(["ent", 2, 1])), "binding_table_rmse_entry")
+    bind("Trace_Stats_prop.cfg", tabs, mut("TabOut", bump(["dims", 0, 0])), "binding_table_dims")
+
+    def swap_cols(e):                      # the LV-major layout: exchanging the entries of (lv 1, j 2) and (lv 2, j 1) must be noticed
+        ny = len(tabs[1]["mt"][0])
+        a, b = 1, ny
+        if e["ent"][a] == e["ent"][b]:
+            return False
+        e["ent"][a], e["ent"][b] = e["ent"][b], e["ent"][a]
+        return True
+    bind("Trace_Stats_prop.cfg", tabs, mut("TabOut", swap_cols), "binding_table_layout")
+    mlr = pick(lambda b: any(e["e"] == "TabIn" and e["fam"] == "Mlr" and e["hist"] == "presized" for e in b))
+
+    def doubled(e):                        # what an appending MLRRegressionStatistics leaves in a pre-sized vector
+        for d in e["dims"]:
+            if d[1] > 0:
+                d[1] *= 2
+        return True
+    bind("Trace_Stats_prop.cfg", mlr, mut("TabOut", doubled), "binding_table_reuse_count")
+    da = pick(lambda b: any(e["e"] == "DaIn" and e["hist"] == "fresh" and e["ny"] > 1 and e["nlv"] > 1 for e in b))
+    bind("Trace_Stats_prop.cfg", da, mut("DaOut", bump(["ent", 1, 0])), "binding_da_auc")
+    bind("Trace_Stats_prop.cfg", da, mut("DaOut", bump(["rocs", 1, 2, 0])), "binding_da_slice")
+    da2 = pick(lambda b: any(e["e"] == "DaIn" and e["hist"] == "second" for e in b))
+    da2 = [e for e in da2 if e["e"] != "DaSlices"]
+    bind("Trace_Stats.cfg", da2, mut("DaOut", bump(["dims", 0])), "binding_da_append_impl")
+    ag = pick(lambda b: any(e["e"] == "Again" for e in b))
+    bind("Trace_Stats.cfg", ag, mut("Again", bump(["rows"])), "binding_again_impl")
+    po = pick(lambda b: any(e["e"] == "Poly" for e in b))
+    bind("Trace_Stats_prop.cfg", po, mut("Poly", bump(["a2"])), "binding_poly")
+    regoff = pick(lambda b: any(e["e"] == "RegIn" and e["off"] >= 10 ** 9 and e["n"] >= 30 for e in b))
+
+    def res_over(e):                       # the residual field is bound: a result 2e-3 away from the exact fraction must be rejected whatever the offset allows
+        e["res"] = 1999999999
+        return True
+    bind("Trace_Stats_prop.cfg", regoff, mut("R2", res_over), "binding_r2_offset_tolerance")
+    for b in blocks:
+        if any(e["e"] == "TabIn" and e["hist"] == "second" and e["n"] <= 9 for e in b):
+            ctx.sample([{k: v for k, v in e.items()} for e in b], 8)
             break
 
 
@@ -244,7 +579,9 @@ def run(ctx):
     ctx.assumptions += [
         "TLC's integer/rational arithmetic and the Stats.tla definitions are the reference (AUC by trapezoids over 2PN, PR area by trapezoids from (recall 0, precision 1), R2 = 1 - SSE/SST, BIAS = |1 - slope|)",
         "scores are tie-free (the property's quantifier); truths are exactly 0/1 or the missing code; R2/BIAS are judged only when the present truths are not constant",
-        "replay compares doubles with the exact rationals within 1e-12 (relative, floor 1 or the squared scale), and within 1e-8 when truths and predictions share an offset of 2^20..2^30 units (conditioning of a computation on deviations; justified by ThShiftInvariant); the validate direction logs integers over the known denominators plus the residual in 1e-12 units, R2/BIAS at 1e-4",
+        "replay compares doubles with the exact rationals within 1e-12 (relative, floor 1 or the squared scale), and within 1e-8 when truths and predictions share an offset of 2^20..2^30 units (conditioning of a computation on deviations; justified by ThShiftInvariant); the validate direction logs integers over the known denominators plus the residual in 1e-12 units; R2/BIAS as round(result*D) over D = m*Syy - Sy^2 with the residual judged by Stats!FineTol = (1 + OffAllow(offset, length, D)) * (2 + |result|) units of 1e-12 (OffAllow = 0 without offset, <= 8 at offset 2^30 and 200 cells; the 1e-4 comparison of round 1 is kept alongside)",
+        "regression inputs of the validate direction are integers in -5..5 fed as (v + offset) * 2^e (e in -30..30, exactly representable) or, without offset, v * 10^d (d in -9..9); no present truth lies within 1 of the missing code 99999999; at most 20 % of the truths are missing-coded (the trace specification itself rejects an input outside these bounds as an infrastructure failure)",
+        "what a routine does with an output that is not empty on entry is judged only for the routines that resize and assign on the unchanged library (PLSRegressionStatistics, MLRRegressionStatistics: StatsOut!ContractOf = assign); for the appending routines (ROC, PrecisionRecall, PLSDiscriminantAnalysisStatistics) it is recorded in the implementation-shaped layer (SPEC-DRIFT) or reported as EXTRA-FINDING",
         "in the validate direction the rank order handed to TLC is computed by the harness from its own scores (qsort), and the monotone maps are checked to preserve it in double precision",
         "ASan/UBSan build: any sanitizer report is a violation",
     ]
@@ -260,15 +597,22 @@ def run(ctx):
     if not any(e["fam"] in ("PlsReg", "PlsDa") and e["ny"] > 1 and e["nlv"] > 1 for e in r.emits):
         raise InfraError("vacuous run: no table case with several responses and latent variables")
     ctx.steps["mc_gen_stats"]["cases_per_family"] = count
-    ctx.note("Stats: %d states, 14 theorems hold; %d cases printed %s (%.1fs)" % (r.distinct, len(r.emits), count, r.wall))
+    ctx.note("Stats: %d states, 19 theorems hold; %d cases printed %s (%.1fs)" % (r.distinct, len(r.emits), count, r.wall))
+    _hist_models(ctx)
     rd = tlc.rundir()
     try:
         _replay_cases(ctx, r.emits, rd, FAMS)
         ctx.note("replay done")
+        plan = _Plan()
         if ctx.quick:
-            _trace_direction(ctx, rd, 4, 45, 200)
+            _trace_direction(ctx, rd, 4, 45, 200, plan)
+            _cls_direction(ctx, rd, 1, 4, plan)
         else:
-            _trace_direction(ctx, rd, 12, 250, 200)
+            _trace_direction(ctx, rd, 12, 250, 200, plan)
+            _cls_direction(ctx, rd, 2, 12, plan)
+        ctx.note("validate directions: %d recorded traces and %d binding self-tests go to TLC" % (len(plan.tasks), len(plan.bind)))
+        plan.run(ctx)
+        ctx.note("validate directions done")
     finally:
         shutil.rmtree(rd, ignore_errors=True)
     for e in r.emits:
@@ -285,8 +629,10 @@ def run(ctx):
             break
     ctx.cov["rule"] = ("TLC enumerates every (truth vector over {0,1,missing} with both classes, score order) for 2..%d objects and every pair of regression vectors over -2..2 "
                        "(+ one missing truth) up to length %d; each printed case is run through the real functions (4 score maps / 3 scales); table cases for ny 1..3 x nlv 1..3; "
-                       "random recorded runs up to 200 objects are validated by TLC. A case is keyed by its input vectors; regression cases are non-trivial when the present "
-                       "truths are not constant, table cases when ny > 1 and nlv > 1" % ((5, 3) if ctx.quick else (6, 4)))
+                       "random recorded runs up to 200 objects are validated by TLC, and a class-directed run emits a stratified handful of blocks for every input / "
+                       "history class of INPUT-CLASSES.md that lies inside the quantifier (coverage.classes counts the executed blocks per class tag; the run fails "
+                       "as infrastructure if a required class was not emitted). A case is keyed by its input vectors (+ unit system, output history); regression cases "
+                       "are non-trivial when the present truths are not constant, table cases when ny > 1 and nlv > 1" % ((5, 3) if ctx.quick else (6, 4)))
     ctx.cov["exhaustive"] = True
 
 
@@ -317,6 +663,13 @@ def replay(ctx, body):
             g = _gen(ctx, cfg, "gen_replay")
             _replay_cases(ctx, g.emits, rd, [fam])
             ctx.sample(_inputs(g.emits[0]))
+        elif case.get("kind") == "cls":
+            a = case["args"]
+            ctx.seed = int(a[0])
+            plan = _Plan()
+            _cls_direction(ctx, rd, int(a[1]), int(a[3]), plan, only_part=int(a[2]))
+            plan.run(ctx)
+            ctx.sample(case.get("block", [{}])[0])
         elif case.get("kind") == "trace":
             a = case["args"]
             out = os.path.join(rd, "t.ndjson")
